@@ -19,6 +19,7 @@ class Loop(asyncio.BaseEventLoop):
         self._vt = 0.0
         self._selector = _NoSelector()
         self.errors = []
+        self.factories = []
         self.set_exception_handler(lambda loop, ctx: self.errors.append(ctx))
 
     def time(self):
@@ -32,6 +33,9 @@ class Loop(asyncio.BaseEventLoop):
 
     # the real server constructors ask for listening endpoints; nothing is opened here
     def create_server(self, *a, **k):
+        # what the server hands over for building a protocol object per connection is what connections are built with
+        self.factories.append(a[0] if a else k.get('protocol_factory'))
+
         async def _none():
             return None
         return _none()
